@@ -404,6 +404,18 @@ def run(ctx: Ctx) -> None:
     exp.setdefault(vi, len(bad[vi]["ev"]))
     ctx.selftest("trace-corruption(exception class at the caller altered)", rej == exp, f"rej={rej} expected={exp}")
 
+    # binding self-test 2: a lost ErrorSnapshot must be rejected also when nothing was loaded (dict storage)
+    cand = [t for t in ptraces if t["entry"].endswith("-twice") and str(t["storage"]) == "dict"
+            and any(e["e"] == "raise" and e.get("repro", ["", []])[0] not in ("", "<no snapshot>") for e in t["ev"])]
+    if cand:
+        base2 = validate_traces(ctx, "TraceMapRun", copy.deepcopy(cand[:1]), "st2", invariants=[], strip=STRIP, count=False)
+        if not base2:
+            bad2 = copy.deepcopy(cand[:1])
+            kk = next(i for i, e in enumerate(bad2[0]["ev"]) if e["e"] == "raise")
+            bad2[0]["ev"][kk]["repro"] = bad2[0]["ev"][kk]["repro_loaded"] = ["<no snapshot>", []]
+            rej2 = validate_traces(ctx, "TraceMapRun", bad2, "st3", invariants=[], strip=STRIP, count=False)
+            ctx.selftest("trace-corruption(ErrorSnapshot lost, nothing loaded)", rej2 == {0: kk + 1}, f"rej={rej2} expected={{0: {kk + 1}}}")
+
     from . import c13_call
     c13_call.run(ctx)
 
